@@ -72,6 +72,10 @@ def workdir() -> str:
     return _workdir
 
 
+class InfrastructureError(RuntimeError):
+    """the machinery itself failed (executable missing, driver crashed, time-out): exit 2, never a verdict"""
+
+
 class BuildLock:
     def __enter__(self):
         os.makedirs(os.path.join(VERIF, ".work"), exist_ok=True)
@@ -113,12 +117,12 @@ def run_exe(exe: str, lines: List[str]) -> List[str]:
     with open(fin) as f:
         p = subprocess.run([os.path.join(BIN, exe)], stdin=f, capture_output=True, text=True, timeout=3600)
     if p.returncode != 0:
-        raise RuntimeError(f"{exe} exited {p.returncode}: {p.stderr[:400]}")
+        raise InfrastructureError(f"{exe} exited {p.returncode}: {p.stderr[:400]}")
     out = p.stdout.split("\n")
     if out and out[-1] == "":
         out.pop()
     if len(out) != len(lines):
-        raise RuntimeError(f"{exe}: {len(lines)} lines in, {len(out)} out")
+        raise InfrastructureError(f"{exe}: {len(lines)} lines in, {len(out)} out")
     return out
 
 
@@ -299,8 +303,18 @@ class Ctx:
                         self.known_hits.setdefault(kid, {"kind": kind.name, "args": cases[i], "impl": outs[i]})
                         continue
                     if len(self.spec_failures) < 50:
-                        self.spec_failures.append({"stream": stream, "kind": kind.name, "args": cases[i],
-                                                   "impl": outs[i], "judge": line, "expected": exp, "got": got})
+                        f = {"stream": stream, "kind": kind.name, "args": cases[i],
+                             "impl": outs[i], "judge": line, "expected": exp, "got": got}
+                        if not self.spec_failures:
+                            # the calls made just before it in this process: a failure that depends on earlier calls (a cache, a
+                            # remembered session) replays only after them
+                            pre = list(cases[max(0, i - 40):i])
+                            try:
+                                if len(json.dumps(pre)) < 200_000:
+                                    f["preceding"] = pre
+                            except (TypeError, ValueError):
+                                pass
+                        self.spec_failures.append(f)
                     else:
                         self.spec_failures.append({"stream": stream})
         return outs
